@@ -35,6 +35,8 @@ def fail(node, why):
 
 
 class Tr:
+    N_ITEMS_KW = 'n_items'
+
     def __init__(self, kinds):
         self.kinds = kinds          # name -> 'term' | 'num' | 'int'
         self.vars = {}              # local name -> (type, Gallina)
@@ -160,7 +162,7 @@ class Tr:
                 return self.block(rest, other)
             # items = self._reduce_items(<iter>, n_items=<n>)
             if isinstance(v, ast.Call) and ast.unparse(v.func) == 'self._reduce_items' \
-                    and len(v.args) == 1 and len(v.keywords) == 1 and v.keywords[0].arg == 'n_items':
+                    and len(v.args) == 1 and len(v.keywords) == 1 and v.keywords[0].arg == self.N_ITEMS_KW:
                 a, nn = self.items(v.args[0]), self.n(v.keywords[0].value)
                 if a and nn:
                     self.vars[name] = ('items', f"(reduce_items E {'true' if a[1] else 'false'} "
@@ -208,9 +210,12 @@ def generate(path):
     out = [PRELUDE]
     # _reduce_items: keep_item_order defaults to True
     ri, cls = find(tree, '_reduce_items')
-    if [a.arg for a in ri.args.args] != ['self', 'items', 'n_items', 'keep_item_order'] \
-            or [ast.unparse(d) for d in ri.args.defaults] != ['None', 'True']:
+    ri_names = [a.arg for a in ri.args.args]
+    if len(ri_names) != 4 or ri_names[0] != 'self' \
+            or [ast.unparse(d) for d in ri.args.defaults] != ['None', 'True'] \
+            or ri.args.vararg or ri.args.kwarg or ri.args.kwonlyargs:
         raise Unsupported("Term._reduce_items: signature / defaults")
+    Tr.N_ITEMS_KW = ri_names[2]        # the keyword the callers must use for the length
     # module-level helper _reciprocal
     rs = [n for n in tree.body if isinstance(n, ast.FunctionDef) and n.name == '_reciprocal']
     if len(rs) != 1 or [a.arg for a in rs[0].args.args] != ['items']:
